@@ -18,11 +18,14 @@ ROOT = {
  'count-not-committed-state': ("GrafeoDB::node_count / edge_count evaluate at the store epoch, which the engine never advances: they do not reflect the committed state", "crates/grafeo-core/src/graph/lpg/store.rs:1581-1600,1964-1990"),
 }
 cells = collections.defaultdict(set)
+wit = {}
 for f in glob.glob(f'/verif/replays/{prop}/*.json'):
     d = json.load(open(f)); s = d['signature']
     if s.get('layer') not in ('session', 'database'): continue
     key = (s['layer'], s['anomaly'], s.get('ending', '-'), s.get('reader', '-'), s.get('write', '-'), s.get('diff', '-'))
     cells[key].add(s.get('probe', '-'))
+    h = d.get('case', {}).get('history', [])
+    if key not in wit or len(h) < len(wit[key][0]): wit[key] = (h, d.get('detail', ''))
 led = json.load(open('/verif/findings/known_findings.json'))
 led['findings'] = [x for x in led['findings'] if not (x.get('generated') and x['property'] == prop)]
 n = 0
@@ -39,7 +42,7 @@ for key in sorted(cells):
         "id": f"{prop}-K{n:03d}", "property": prop, "status": "known", "generated": True,
         "title": f"{an} [{write} / {reader}{'' if ending == '-' else ' / ' + ending}{'' if diff == '-' else ' / ' + diff}]: {rc[0]}",
         "root_cause": rc[1],
-        "witness": f"replay files under /verif/replays/{prop}/ on the pinned tree; read paths: {', '.join(sorted(cells[key]))}",
+        "witness": f"history {' ; '.join(wit[key][0])} -> {wit[key][1][:300]} (shortest recorded; read paths of this cell: {', '.join(sorted(cells[key]))})",
         "matcher": m})
 json.dump(led, open('/verif/findings/known_findings.json', 'w'), indent=1)
 print(f"{prop}: {n} cell rows listed")
